@@ -185,6 +185,19 @@ def r11_1_2(ctx, crate, scope, R1, R2, control=False):
                        'swallowed': 'the Result of %s is converted with a method that discards the error',
                        'matched-bad': 'the Err arm of a match on the Result of %s reaches a success return'}[worst]
                 ctx.violation(R1, '%s:%s' % (worst, key), msg % callee, fn=f, at=at)
+    # a discarding method handed on as a function value (`.and_then(Result::ok)`, `.map(Result::unwrap_or_default)`): whatever Result
+    # reaches it loses its error, and no call of it appears in this function's own body
+    if not control:
+        import json as _json
+        for f in scope.values():
+            for bid, t in f.calls():
+                for a in t.get('args', []):
+                    c = a.get('const') if isinstance(a, dict) else None
+                    fnp = c.get('fn') if isinstance(c, dict) else None
+                    if isinstance(fnp, str) and SM.RESULT_SWALLOW.match(fnp):
+                        n_results += 1
+                        ctx.violation(R1, 'swallowed-by-reference:%s@%s' % (fnp.rsplit('::', 1)[-1], f.path),
+                                      'Result::%s is handed to %s as a function value: the error of every Result that flows through it is discarded' % (fnp.rsplit('::', 1)[-1], (f.callee(t) or '?').rsplit('::', 1)[-1]), fn=f, at=t.get('span'))
     return n_results, hits
 
 
